@@ -9,3 +9,6 @@ open HmcVerif.C08
 #print axioms timeout_prefix
 #print axioms timeout_is_shorter_run
 #print axioms close_rate_zero_completed
+#print axioms limiter_raise_resets
+#print axioms limiter_next_run_like_first
+#print axioms limiter_raises_iff
